@@ -4,6 +4,7 @@ A witness crate path-depends on /repo/bio-seq as an external user would.  Its
 evaluated statics and derived-impl MIR are compared with the generator's own
 record.  compile_fail doctests (with `no_run` twins) are compiled by rustdoc.
 """
+import fcntl
 import glob
 import hashlib
 import json
@@ -45,6 +46,19 @@ def _write_crate(name, files, features, extra_deps=""):
 def build(name, files, features=(), release=False, debug_assertions=True):
     """Compile the witness crate under the driver. Returns (ok, Crate|None, diagnostics[list of dict])"""
     facts.ensure_driver()
+    os.makedirs(WDIR, exist_ok=True)
+    # one witness build at a time per target directory: concurrent checks share it, and the fingerprint reset below must not
+    # hit another process's build in flight
+    lock = open(os.path.join(facts.CACHE, ".lock-witness" + ("-rel" if release else "")), "w")
+    fcntl.flock(lock, fcntl.LOCK_EX)
+    try:
+        return _build_locked(name, files, features, release, debug_assertions)
+    finally:
+        fcntl.flock(lock, fcntl.LOCK_UN)
+        lock.close()
+
+
+def _build_locked(name, files, features, release, debug_assertions):
     d = _write_crate(name, files, features)
     out = os.path.join(WDIR, "%s-facts-%d" % (name, os.getpid()))
     if os.path.isdir(out):
@@ -125,6 +139,17 @@ DOCTEST_RE = re.compile(r"^test (\S+) - (\S+) \(line (\d+)\)( - compile fail| - 
 
 def doctests(name, lib_src, features=()):
     """Run rustdoc's compile_fail / no_run doctests of a harness crate. Returns {item name: 'ok'|'FAILED'}, raw output"""
+    os.makedirs(WDIR, exist_ok=True)
+    lock = open(os.path.join(facts.CACHE, ".lock-doctest"), "w")
+    fcntl.flock(lock, fcntl.LOCK_EX)
+    try:
+        return _doctests_locked(name, lib_src, features)
+    finally:
+        fcntl.flock(lock, fcntl.LOCK_UN)
+        lock.close()
+
+
+def _doctests_locked(name, lib_src, features):
     d = _write_crate(name, {"src/lib.rs": lib_src}, features)
     env = dict(os.environ)
     env["CARGO_TARGET_DIR"] = os.path.join(facts.CACHE, "target-doctest")
